@@ -578,3 +578,10 @@ PROPS["C09"]["manifest"]["note"] = (
 PROPS["C10"]["manifest"]["note"] = PROPS["C10"]["manifest"].get("note", "") + (
     " Files with subnets in the default map (classic '%lo,prefix' lines without map id) get no Spec verdict (LocIdsOK, "
     "Props/C03); for them the harness checks directly that a name without any '8' map is answered with scope 0.")
+PROPS["C03"]["manifest"]["text"] = PROPS["C03"]["manifest"]["text"].replace(
+    "proved negative witnesses w2_needed / w3_needed / w3_error for the well-formedness conditions.",
+    "under W1 (no duplicate block) and W3 only - the former hypothesis W2 (0.0.0.0/n and ::/n taken for default routes) was a "
+    "defect of Rearranger.AddLocation, repaired in /repo, and is gone from every theorem; proved negative witnesses "
+    "w3_needed / w3_error / w3_needed_v6 for W3 (an IPv6 block other than ::/0 containing ::ffff:0:0/96: known finding "
+    "C03-ipv6-block-over-ipv4-range, its repair fails dnsdata's own golden tests).")
+PROPS["C03"]["manifest"]["note"] = "Hypotheses W1 and W3 (DESIGN.md section 6 C03 and 11.13) are enforced by the generator and explicit in the theorems; W3 is a known finding, not a well-formedness condition."
